@@ -80,7 +80,10 @@ def run(run):
             run.count('fact units')
             run.guard('history writers', history_writers, run, F, E)
             run.guard('replay shape', replay_shape, run, F, E)
-            run.guard('copy ctor coverage', records.copy_ctor_coverage, run, 'C11.d', F)
+            # only the classes a machine's history lives in matter here (hand-written copies of anything else are C17.b's)
+            hist = ('ffsm2::detail::CoreT<', 'ffsm2::detail::R_<', 'ffsm2::detail::RV_<', 'ffsm2::detail::RP_<', 'ffsm2::detail::InstanceT<', 'ffsm2::detail::TransitionT<')
+            run.guard('copy ctor coverage', records.copy_ctor_coverage, run, 'C11.d', F,
+                      lambda rec: None if rec['name'].startswith(hist) else 'carries no transition history (its copies are decided by C17.b)')
             from rules import c02
             run.guard('drop condition', c02.drop_condition, run, F)
             run.relabel('C02.f', 'C11.e')
